@@ -192,7 +192,7 @@ theorem yearStart_common {yoe : Int} (_h0 : 0 ≤ yoe) (_h1 : yoe ≤ 399)
     have a100 : (yoe + 1) / 100 = yoe / 100 := by omega
     omega
 
-theorem validDate_bounds' {y m d : Int} (h : validDate y m d = true) : (1 ≤ m ∧ m ≤ 12) ∧ (1 ≤ d ∧ d ≤ 31) := by
+theorem validDate_bounds {y m d : Int} (h : validDate y m d = true) : (1 ≤ m ∧ m ≤ 12) ∧ (1 ≤ d ∧ d ≤ 31) := by
   rw [validDate_iff] at h
   obtain ⟨c2, c30, c31⟩ := daysInMonth_cases y m
   refine ⟨⟨h.1, h.2.1⟩, h.2.2.1, ?_⟩
